@@ -187,6 +187,9 @@ fn install<T>(cv: &mut CVec<T>) -> Result<(), (String, String)> {
 
 struct Sut<E: Elem> {
     max_len: usize,
+    /// size class of the allocator while the history runs: 0 = every growth relocates the buffer,
+    /// n = growth inside an n-byte class keeps the buffer address (in-place realloc)
+    class: usize,
     _p: std::marker::PhantomData<fn() -> E>,
 }
 
@@ -469,9 +472,11 @@ impl<E: Elem + Clone> HistSut for Sut<E> {
     fn run(&self, hist: &[Op]) -> StepOut<Op> {
         // everything that outlives the allocation window is allocated before it / untracked
         let mut obs = Vec::with_capacity(hist.len() + 1);
+        alloc::set_size_class(self.class);
         alloc::begin();
         let r = self.exec(hist, &mut obs);
         let rep = alloc::end();
+        alloc::set_size_class(0);
         let obs_d = digest(&obs);
         match r {
             Err(v) => StepOut { key: 0, enabled: vec![], obs: obs_d, violation: Some(v) },
@@ -480,14 +485,20 @@ impl<E: Elem + Clone> HistSut for Sut<E> {
     }
 }
 
-fn replay_with<E: Elem + Clone>(case: &Value, max_len: usize) -> CaseOut {
+fn replay_with<E: Elem + Clone>(case: &Value, max_len: usize, class: usize) -> CaseOut {
     let hist: Vec<Op> = serde_json::from_value(case["history"].clone()).expect("history");
-    let sut = Sut::<E> { max_len, _p: Default::default() };
+    let sut = Sut::<E> { max_len, class, _p: Default::default() };
     let out = sut.run(&hist);
     CaseOut { obs: out.obs, nontrivial: true, violation: out.violation }
 }
 
+const CLASS: usize = 256;
+
 fn section<E: Elem + Clone>(name: &'static str) -> Section {
+    section_with::<E>(name, 0)
+}
+
+fn section_with<E: Elem + Clone>(name: &'static str, class: usize) -> Section {
     Section {
         name,
         explore: Box::new(move |cx: &Cx| {
@@ -495,28 +506,33 @@ fn section<E: Elem + Clone>(name: &'static str) -> Section {
                 Tier::Quick => (4, 5, 7),
                 Tier::Thorough => (5, 6, 9),
             };
-            let sut = Sut::<E> { max_len, _p: Default::default() };
-            cx.rule(name, &format!("histories over {{default, from(Vec exact/spare), push, pop, insert(i<=len+1), remove(i<=len), reserve(0|1|5), clone-and-swap, write(i), inspect}} on CVec<{}> with len <= {}; each history re-executed on a fresh real CVec in lock-step with Vec; non-trivial = non-empty history; distinct = distinct observation digests (contents+capacity after every step)", E::NAME, max_len));
+            let sut = Sut::<E> { max_len, class, _p: Default::default() };
+            let pre = if class != 0 { format!("allocator carves blocks in {}-byte classes and grows them in place (realloc keeps the address while the new size fits the class); ", class) } else { String::new() };
+            cx.rule(name, &format!("{}histories over {{default, from(Vec exact/spare), push, pop, insert(i<=len+1), remove(i<=len), reserve(0|1|5), clone-and-swap, write(i), inspect}} on CVec<{}> with len <= {}; each history re-executed on a fresh real CVec in lock-step with Vec; non-trivial = non-empty history; distinct = distinct observation digests (contents+capacity after every step)", pre, E::NAME, max_len));
             hist::full(&sut, full_d, cx, name);
             let bname: &'static str = Box::leak(format!("{}_bfs", name).into_boxed_str());
             cx.rule(bname, "same alphabet, BFS with dedup on (element type, rank pattern of contents, len, capacity)");
             hist::bfs(&sut, bfs_d, cx, bname, 2_000_000);
         }),
-        replay: Box::new(move |case| replay_with::<E>(case, 6)),
+        replay: Box::new(move |case| replay_with::<E>(case, 6, class)),
     }
 }
 
 fn main() {
     quiet_panics();
-    let mut sections = vec![section::<u64>("u64"), section::<u8>("u8"), section::<Z>("zst"), section::<Dc>("dropcounter"), section::<DcZst>("zst_drop"), section::<Fat>("fat_heap")];
+    let mut sections = vec![section::<u64>("u64"), section::<u8>("u8"), section::<Z>("zst"), section::<Dc>("dropcounter"), section::<DcZst>("zst_drop"), section::<Fat>("fat_heap"),
+        section_with::<u64>("u64_inplace", CLASS), section_with::<Dc>("dropcounter_inplace", CLASS), section_with::<Fat>("fat_heap_inplace", CLASS)];
     // the *_bfs sections replay through the same function
     let extra: Vec<Section> = vec![
-        Section { name: "u64_bfs", explore: Box::new(|_| {}), replay: Box::new(|c| replay_with::<u64>(c, 6)) },
-        Section { name: "u8_bfs", explore: Box::new(|_| {}), replay: Box::new(|c| replay_with::<u8>(c, 6)) },
-        Section { name: "zst_bfs", explore: Box::new(|_| {}), replay: Box::new(|c| replay_with::<Z>(c, 6)) },
-        Section { name: "dropcounter_bfs", explore: Box::new(|_| {}), replay: Box::new(|c| replay_with::<Dc>(c, 6)) },
-        Section { name: "zst_drop_bfs", explore: Box::new(|_| {}), replay: Box::new(|c| replay_with::<DcZst>(c, 6)) },
-        Section { name: "fat_heap_bfs", explore: Box::new(|_| {}), replay: Box::new(|c| replay_with::<Fat>(c, 6)) },
+        Section { name: "u64_bfs", explore: Box::new(|_| {}), replay: Box::new(|c| replay_with::<u64>(c, 6, 0)) },
+        Section { name: "u8_bfs", explore: Box::new(|_| {}), replay: Box::new(|c| replay_with::<u8>(c, 6, 0)) },
+        Section { name: "zst_bfs", explore: Box::new(|_| {}), replay: Box::new(|c| replay_with::<Z>(c, 6, 0)) },
+        Section { name: "dropcounter_bfs", explore: Box::new(|_| {}), replay: Box::new(|c| replay_with::<Dc>(c, 6, 0)) },
+        Section { name: "zst_drop_bfs", explore: Box::new(|_| {}), replay: Box::new(|c| replay_with::<DcZst>(c, 6, 0)) },
+        Section { name: "fat_heap_bfs", explore: Box::new(|_| {}), replay: Box::new(|c| replay_with::<Fat>(c, 6, 0)) },
+        Section { name: "u64_inplace_bfs", explore: Box::new(|_| {}), replay: Box::new(|c| replay_with::<u64>(c, 6, CLASS)) },
+        Section { name: "dropcounter_inplace_bfs", explore: Box::new(|_| {}), replay: Box::new(|c| replay_with::<Dc>(c, 6, CLASS)) },
+        Section { name: "fat_heap_inplace_bfs", explore: Box::new(|_| {}), replay: Box::new(|c| replay_with::<Fat>(c, 6, CLASS)) },
     ];
     sections.extend(extra);
     explore::run_main(CheckDef {
